@@ -9,6 +9,7 @@ package system
 import (
 	"errors"
 	"fmt"
+	"net"
 	"os"
 	"os/exec"
 	"path/filepath"
@@ -265,6 +266,53 @@ func TestVerifState(t *testing.T) {
 						if string(after) != "0\n" {
 							bad = append(bad, fmt.Sprintf("SetIPv6Autoconf for a deleted interface changed the sysctl of the interface that inherited its index: %q", after))
 						}
+					}
+				}
+			}
+			// a listener that cannot be completed is closed: the socket ndp.Listen opened must not stay behind when the
+			// filter, the control-message flags or the group membership cannot be set (here: no option memory for the
+			// membership).  "Each connection CoreRAD opens is cleaned up exactly once" -- also the one it never hands out
+			if ip("link", "add", "veriflk", "type", "veth", "peer", "name", "veriflp") == nil {
+				for _, n := range []string{"veriflk", "veriflp"} {
+					_ = os.WriteFile("/proc/sys/net/ipv6/conf/"+n+"/accept_dad", []byte("0"), 0o644)
+					_ = ip("link", "set", "up", n)
+				}
+				var ifi *net.Interface
+				for i := 0; i < 50 && ifi == nil; i++ {
+					if x, err := net.InterfaceByName("veriflk"); err == nil {
+						if c, _, err := dialNDP(x); err == nil {
+							_ = c.Close()
+							ifi = x
+							break
+						}
+					}
+					time.Sleep(100 * time.Millisecond)
+				}
+				sockets := func() int {
+					n := 0
+					ents, _ := os.ReadDir("/proc/self/fd")
+					for _, e := range ents {
+						if l, err := os.Readlink("/proc/self/fd/" + e.Name()); err == nil && strings.HasPrefix(l, "socket:") {
+							n++
+						}
+					}
+					return n
+				}
+				const optmem = "/proc/sys/net/core/optmem_max"
+				if old, err := os.ReadFile(optmem); ifi != nil && err == nil && os.WriteFile(optmem, []byte("1"), 0o644) == nil {
+					before, fails := sockets(), 0
+					for i := 0; i < 8; i++ {
+						c, _, err := dialNDP(ifi)
+						if err == nil {
+							_ = c.Close()
+						} else {
+							fails++
+						}
+					}
+					after := sockets()
+					_ = os.WriteFile(optmem, old, 0o644)
+					if fails > 0 && after > before {
+						bad = append(bad, fmt.Sprintf("%d dialNDP calls failed after the socket was opened (no option memory for the group membership) and left %d sockets open", fails, after-before))
 					}
 				}
 			}
